@@ -128,16 +128,32 @@ def obligation_text(ob):
         s.add(h)
     s.add(z3.Not(ob.goal))
     names = {}
+    small = []
     for k, v in (ob.inputs or {}).items():
         if not hasattr(v, "z"):
             continue
         if z3.is_const(v.z) and v.z.decl().kind() == z3.Z3_OP_UNINTERPRETED:
             names[k] = v.z.decl().name()
+            c = v.z
         else:
             c = z3.Const("inp!" + k, v.z.sort())
             s.add(c == v.z)
             names[k] = "inp!" + k
-    return s.to_smt2(), names
+        if z3.is_int(c):
+            small.append(z3.And(c >= -12, c <= 12))
+        elif z3.is_seq(c):
+            small.append(z3.Length(c) <= 4)
+            if z3.is_int(c[0]):
+                i = z3.Int("small!i")
+                small.append(z3.ForAll([i], z3.Implies(z3.And(0 <= i, i < z3.Length(c)), z3.And(c[i] >= -12, c[i] <= 12))))
+    txt = s.to_smt2()
+    # a second query asking for a small counter-model (used only after the first one was sat)
+    s.push()
+    for z in small:
+        s.add(z)
+    small_txt = s.to_smt2() if small else None
+    s.pop()
+    return txt, names, small_txt
 
 
 def hyps_text(hyps):
@@ -210,6 +226,10 @@ def discharge_text(item):
     if st == "unsat":
         return {"status": "unsat", "solver": "z3-5.1.0", "seconds": round(time.time() - t0, 3)}
     if st == "sat":
+        if item.get("small_smt2"):
+            st2, extra2, _ = _run_text(item["small_smt2"], 3.0, item.get("names"))
+            if st2 == "sat":
+                extra = dict(extra2, small_model=True)
         return dict({"status": "sat", "solver": "z3-5.1.0", "seconds": round(time.time() - t0, 3)}, **extra)
     res = {"status": "unknown", "solver": "z3-5.1.0", "reason": why}
     try:
